@@ -222,7 +222,12 @@ class ApiGen(object):
         r = self.r
         name = name or r.choice(["PrintStarted", "PrintStarted"] + END + ["FileSelected", "PrintPaused",
                                  "PrintResumed", "Connected", "Upload"])
-        self.emit(op="event", name=name)
+        op = {"op": "event", "name": name}
+        if name.startswith("Print") and r.random() < 0.5:
+            # payloads as OctoPrint sends them; an SD-card job is a job too
+            op["payload"] = {"name": "a.gcode", "path": "a.gcode", "origin": r.choice(["local", "sdcard"]),
+                             "size": 1234, "owner": "u", "user": "u"}
+        self.ops.append(op)
         if name == "PrintStarted":
             self.active = True
         elif name in END:
